@@ -174,7 +174,29 @@ func (c *Ctx) c06ValidationBeforeMutation(rule string) {
 	R := c.R
 	pendingM, _ := c.P.ConstVal("cashu/nuts/nut04", "Pending")
 	paidM, _ := c.P.ConstVal("cashu/nuts/nut04", "Paid")
-	for _, path := range []string{"/v1/swap", "/v1/melt/{method}", "/v1/mint/{method}", "/v1/mint/quote/{method}", "/v1/melt/quote/{method}"} {
+	known := []string{"/v1/swap", "/v1/melt/{method}", "/v1/mint/{method}", "/v1/mint/quote/{method}", "/v1/melt/quote/{method}"}
+	paths := append([]string{}, known...)
+	// a route that does not exist on the reference tree and whose operation writes persistent state is held to the
+	// same discipline (a new endpoint is a new way for a refused request to leave something behind)
+	refRoutes := map[string]bool{"/v1/keys": true, "/v1/keysets": true, "/v1/keys/{id}": true, "/v1/checkstate": true, "/v1/restore": true, "/v1/info": true,
+		"/v1/mint/quote/{method}/{quote_id}": true, "/v1/melt/quote/{method}/{quote_id}": true, "/v1/ws": true}
+	for _, p := range known {
+		refRoutes[p] = true
+	}
+	for _, rt := range c.V.Routes {
+		if !refRoutes[rt.Path] && len(rt.Ops) == 1 && len(c.writeSites(rt.Ops[0])) > 0 {
+			dup := false
+			for _, p := range paths {
+				if c.V.Op(p) == rt.Ops[0] {
+					dup = true
+				}
+			}
+			if !dup {
+				paths = append(paths, rt.Path)
+			}
+		}
+	}
+	for _, path := range paths {
 		op := c.op(rule, path)
 		if op == nil {
 			continue
@@ -244,15 +266,46 @@ func (c *Ctx) c06ValidationBeforeMutation(rule string) {
 			}
 			R.Check(rule, fk, "no rejection after "+siteDesc(c, s), c.P.InstrPos(s.Instr), okSite,
 				"after this persistent write the operation can only fail with a storage/Lightning fault (validation precedes mutation)", why)
-			if isMarker && fn.Parent() != nil {
-				// every failure return of the operation after the guarded section passes the PAID revert
-				for _, cs := range ClosureCallSites(FindMakeClosure(fn)) {
+			if isMarker && fn.Parent() == nil && (fn == op || !c.P.IsNewFunc(fn)) {
+				// marker written by the operation's own body (no guarded closure): every failure return behind the
+				// marker passes a call that writes the state back to PAID
+				cut := NewCut()
+				for _, ci := range Calls(fn) {
+					if c.writesMintState(ci, paidM, 0) {
+						cut.Barriers[ci] = true
+					}
+				}
+				okRev, whyRev := true, ""
+				for _, r := range Returns(fn) {
+					if !o.IsFailureReturn(r) {
+						continue
+					}
+					if reach, p2 := o.ReachAvoiding(s.Instr, r, cut); reach {
+						okRev = false
+						whyRev = "failure return at " + c.P.InstrPos(r) + " reachable after the PENDING marker without a write back to PAID: " + p2
+					}
+				}
+				R.Check(rule, fk, "every failure after the PENDING marker reverts to PAID", c.P.InstrPos(s.Instr), okRev,
+					"the PENDING marker written before validation is compensated on every failure path", whyRev)
+			}
+			if isMarker && (fn.Parent() != nil || (fn != op && c.P.IsNewFunc(fn))) {
+				// every failure return of the operation after the guarded section passes the PAID revert (the guarded
+				// section is a closure, or a helper new on this tree whose callers compensate)
+				var guardedSites []ssa.CallInstruction
+				if fn.Parent() != nil {
+					guardedSites = ClosureCallSites(FindMakeClosure(fn))
+				} else {
+					guardedSites = c.sitesInScope(c.callersOf(fn))
+				}
+				for _, cs := range guardedSites {
 					po := c.P.OriginsOf(cs.Parent())
 					cut := NewCut()
 					for _, ci := range Calls(cs.Parent()) {
 						d := c.P.Describe(ci)
 						if c.V.DBRole(d, roleSetMint) && len(d.Args) >= 2 && isConst(po.Of(d.Args[1]), paidM) {
 							cut.Barriers[ci] = true
+						} else if callee := ci.Common().StaticCallee(); callee != nil && c.P.IsNewFunc(callee) && c.writesMintState(ci, paidM, 0) {
+							cut.Barriers[ci] = true // the revert moved into a helper that is new on this tree
 						}
 					}
 					okRev, whyRev := true, ""
@@ -515,4 +568,31 @@ func (c *Ctx) c06NoInMemoryRequestState() {
 			R.Undecided("R6", fk, "no in-memory request state", c.P.Pos(op.Pos()), "the operation writes no map of the mint object", bad+": whether every refused request removes what it inserted is not decided")
 		}
 	}
+}
+
+// writesMintState: the call writes the mint-quote state with the given constant, itself or in a module function it
+// calls (three levels).
+func (c *Ctx) writesMintState(ci ssa.CallInstruction, val string, depth int) bool {
+	d := c.P.Describe(ci)
+	if c.V.DBRole(d, roleSetMint) {
+		o := c.P.OriginsOf(ci.Parent())
+		for _, a := range d.Args {
+			if isConst(o.Of(a), val) {
+				return true
+			}
+		}
+		return false
+	}
+	callee := ci.Common().StaticCallee()
+	if callee == nil || callee.Blocks == nil || !c.moduleFn(callee) || depth > 2 {
+		return false
+	}
+	for _, g := range WithClosures(callee) {
+		for _, c2 := range Calls(g) {
+			if c.writesMintState(c2, val, depth+1) {
+				return true
+			}
+		}
+	}
+	return false
 }
